@@ -8,7 +8,7 @@ CONSTANTS
   PMacro <- MacCL
   PLen = 4
   SAlpha <- StrCL
-  SLen = 4
+  SLen = 3
   CfgSel = "cilp"
   Kind = "match"
 INVARIANT Emit
